@@ -534,6 +534,25 @@ pub fn gen(seed: u64, count: usize, tier: &str, params: &Params) -> Vec<Value> {
         let strat = *rng.pick(STRATS);
         let fb = *rng.pick(&["drawn", "drawn", "first", "last", "middle"]);
         match *rng.pick(&kinds) {
+            "quantile" if params.get("deep").map(|s| s == "1").unwrap_or(false) => {
+                // a long run of equal values (deep recursion whatever the pivots) with sparse requests around its upper end
+                let ty = *rng.pick(&["i8", "u8", "i32", "i64", "n64"]);
+                let run = rng.range(70, 260);
+                let below = rng.range(0, 3);
+                let above = rng.range(1, 8);
+                let mut data: Vec<i64> = Vec::new();
+                for k in 0..below { data.push(1 + k); }
+                for _ in 0..run { data.push(below + 1); }
+                for k in 0..above { data.push(below + 2 + if rng.chance(1, 3) { k / 2 } else { k }); }
+                let n = data.len();
+                if rng.chance(1, 2) { for k in (1..n).rev() { let j = rng.below(k as u64 + 1) as usize; data.swap(k, j); } }
+                let m = (n - 1) as i64;
+                let nq = rng.range(1, 4);
+                let mut qs: Vec<Value> = (0..nq).map(|_| { let k = (m - rng.range(0, above + 2)).max(0); if rng.chance(1, 3) { json!({"a": 2 * k - 1, "b": 2 * m, "u": 0}) } else { json!({"a": k, "b": m, "u": *rng.pick(&[0i64, 0, 1, -1])}) } }).collect();
+                if rng.chance(1, 3) { let d = qs[0].clone(); qs.push(d); }
+                cases.push(json!({"ev": "quantile", "ty": ty, "strat": strat, "api": *rng.pick(&["1d_bulk", "axis_bulk"]), "lay": Lay::plain(&[n], false).to_json(), "axis": 0,
+                                  "data": data, "bexp": -1, "qs": qs, "pv": [], "fb": fb, "pair": pair}));
+            }
             "quantile" if rng.chance(1, 6) => {
                 // interpolation between equal or close neighbours under many non-dyadic q's: the result must stay inside [lower, higher]
                 let ty = *rng.pick(&["i8", "u8", "i32", "i64", "u64", "n64"]);
@@ -580,6 +599,38 @@ pub fn gen(seed: u64, count: usize, tier: &str, params: &Params) -> Vec<Value> {
                 if (api == "axis_single" || api == "1d_single") && qs.is_empty() { continue; }
                 cases.push(json!({"ev": "quantile", "ty": ty, "strat": strat, "api": api, "lay": lay.to_json(), "axis": axis,
                                   "data": data, "bexp": bexp, "qs": qs, "pv": script, "fb": fb, "pair": pair}));
+            }
+            _ if params.get("deep").map(|s| s == "1").unwrap_or(false) => {
+                // a run of 70..260 equal values with a few others around it: selection recurses as deep as the run is long
+                // whatever the pivots; sparse q grid around the two ends of the run
+                let run = rng.range(70, 260);
+                let below = rng.range(0, 3);
+                let above = rng.range(1, 8);
+                let mut lane: Vec<i64> = Vec::new();
+                for k in 0..below { lane.push(1 + k); }
+                for _ in 0..run { lane.push(below + 1); }
+                for k in 0..above { lane.push(below + 2 + if rng.chance(1, 3) { k / 2 } else { k }); }
+                let n = lane.len();
+                let m = (n - 1) as i64;
+                let mut qs: Vec<(i64, i64, i64)> = vec![(0, 1, 0), (1, 1, 0)];
+                for k in [0, below - 1, below, below + run - 2, below + run - 1, below + run, below + run + 1, m - 1, m] {
+                    if k < 0 || k > m { continue; }
+                    for &u in &[-1i64, 0, 1] { qs.push((k, m, u)); }
+                    if k < m { qs.push((2 * k + 1, 2 * m, 0)); }
+                }
+                let mut specs: Vec<(f64, Value)> = qs.iter().map(|&(a, b, u)| { let s = json!({"a": a, "b": b, "u": u}); (make_q(&s), s) }).collect();
+                specs.sort_by(|x, y| x.0.partial_cmp(&y.0).unwrap());
+                let mut perm: Vec<usize> = (0..n).collect();
+                for k in (1..n).rev() { let j = rng.below(k as u64 + 1) as usize; perm.swap(k, j); }
+                if rng.chance(1, 2) { lane = perm.iter().map(|&k| lane[k]).collect(); }
+                let mut distinct = lane.clone(); distinct.sort(); distinct.dedup();
+                let relabel: Vec<i64> = distinct.iter().enumerate().map(|(r, &v)| v + r as i64).collect();
+                let ty = *rng.pick(&["i64", "n64", "i8", "u8"]);
+                let nanpos: Vec<i64> = (0..rng.range(1, 3)).map(|_| rng.range(0, n as i64)).collect();
+                let mut c = json!({"ev": "qlaws", "ty": ty, "lane": lane, "bexp": -1, "qs": specs.into_iter().map(|x| x.1).collect::<Vec<_>>(),
+                                  "perm": perm, "relabel": relabel, "stride": *rng.pick(&[1, 1, 2, -1]), "fb": fb});
+                if ty == "n64" { c["nanpos"] = json!(nanpos); }
+                cases.push(c);
             }
             _ => {
                 let n = rng.range(1, maxn + 2) as usize;
